@@ -474,7 +474,7 @@ def write(spec, root):
     return base
 
 
-def prepare(spec, root):
+def prepare(spec, root, write_files=True):
     '''write the engine and point dawgie.context at it (no import yet)'''
     import importlib  # pylint: disable=import-outside-toplevel
     import sys  # pylint: disable=import-outside-toplevel
@@ -485,7 +485,7 @@ def prepare(spec, root):
     if old:
         dawgie.pl.scan.reset(old)
         sys.modules.pop(old, None)
-    base = write(spec, root)
+    base = write(spec, root) if write_files else os.path.join(root, spec['pkg'])
     if root not in sys.path:
         sys.path.insert(0, root)
     importlib.invalidate_caches()
